@@ -166,10 +166,15 @@ class P(Prop):
         superc, sgmap = r
         self.super_compare(c, cj, superc, sgmap)
         full = superc.copy()
+        # fill_blackbox splices node n of instance sg_h as `sg_h_n`: two different (h, n) pairs with the same spliced name
+        # (heads a / a_b with members b_c / c), or a spliced name that is already a net, make a later fill fail (K53)
+        spliced = [f"{name}_{n}" for name, sg in sgmap.items() for n in sg.nodes()]
+        clash = len(set(spliced)) < len(spliced) or bool(set(spliced) & set(superc.nodes()))
         for name, sg in sgmap.items():
             o2, _ = call(full.fill_blackbox, name, sg)
             if o2 != "ok":
-                self.fail("search", f"supercircuit-fill-{o2}", f"filling {name} raised {o2}", case)
+                self.fail("search", f"supercircuit-fill-{o2}" + (":spliced-name-clash" if clash and o2 == "ValueError" else ""),
+                          f"filling {name} raised {o2}", case)
                 return
         if full.inputs() != c.inputs() or full.outputs() != c.outputs():
             self.fail("search", "supercircuit-io", "io differs", case)
@@ -242,6 +247,30 @@ class P(Prop):
                 with ordered(sd):
                     o, sgs = call(cg.tx.supergates, ck)
                 self.algo_compare(self.driver(), ck, c_to_json(ck), sd, o, sgs)
+        # K28, a witness that does not depend on the hash order (reported by a seeding sub-agent): each output's supergate
+        # holds the other's cut point as an inner node, so the ordering graph is cyclic
+        k28 = cg.Circuit("k28")
+        for i in "abst":
+            k28.add(i, "input")
+        k28.add("g1", "nor", fanin=["a", "b"])
+        k28.add("g0", "nor", fanin=["s", "t"])
+        k28.add("l2", "and", fanin=["g1", "t"])
+        k28.add("o1", "and", fanin=["g0", "l2"], output=True)
+        k28.add("l4", "or", fanin=["g0", "g1"])
+        k28.add("o2", "and", fanin=["l4", "a"], output=True)
+        self.oracle(k28)
+        with ordered(0):
+            o, sgs = call(cg.tx.supergates, k28)
+        self.algo_compare(self.driver(), k28, c_to_json(k28), 0, o, sgs)
+        # K53 (found by the proof of C17.super_fill_equiv): heads `a`, `a_b` with members `b_c`, `c` give the spliced name
+        # `sg_a_b_c` twice, so the second fill_blackbox is rejected
+        k53 = cg.Circuit("k53")
+        for i in ("b_c", "q", "c", "d"):
+            k53.add(i, "input")
+        k53.add("a", "and", fanin=["b_c", "q"])
+        k53.add("a_b", "and", fanin=["c", "d"])
+        k53.add("o", "and", fanin=["a", "a_b"], output=True)
+        self.oracle_super(k53)
         # a supergate of one cone (z = not n) whose input n lies inside a larger supergate of another cone (y): the list
         # must still give the producer first
         c = cg.Circuit("cover")
